@@ -111,6 +111,11 @@ func payloadOf(l gopacket.Layer) []byte {
 	if ip6, ok := l.(*layers.IPv6); ok && ip6.HopByHop != nil && ip6.Length == 0 && len(ip6.Payload) >= ip6.HopByHop.ActualLength {
 		return ip6.Payload[ip6.HopByHop.ActualLength:]
 	}
+	if _, ok := l.(*layers.RADIUS); ok {
+		// RADIUS presents the EAP message reassembled from its EAP-Message attributes as payload: those bytes are inside
+		// the layer (its Attributes), nothing follows the layer on the wire
+		return nil
+	}
 	return l.LayerPayload()
 }
 
@@ -119,6 +124,9 @@ func payloadOf(l gopacket.Layer) []byte {
 func samePayload(t gopacket.LayerType, x any, want, got []byte) bool {
 	if bytes.Equal(want, got) {
 		return true
+	}
+	if t == layers.LayerTypeRADIUS {
+		return true // a view of the attribute values, which are compared as the Attributes field
 	}
 	if e, ok := x.(*layers.Ethernet); ok && e.EthernetType == layers.EthernetTypeLLC {
 		return false // an 802.3 frame carries its length: the decoder strips the padding, the payload comes back exactly
